@@ -25,7 +25,8 @@ Proof.
   rewrite (clause7_holds da s o R). cbn [negb].
   rewrite (clause8_holds s o P). cbn [negb].
   rewrite (clause9_holds da s o R Q P). cbn [negb].
-  rewrite (clause10_holds _ (reachable_InvA _ _ R')). reflexivity.
+  rewrite (clause10_holds _ (reachable_InvA _ _ R')). cbn [negb].
+  rewrite (clause11_holds da _ R' Q' P'). reflexivity.
 Qed.
 
 Lemma monitor_run_model : forall da ops s i, reachable da s -> quiescent s -> pending s = [] ->
